@@ -15,12 +15,14 @@
 #include <stdlib.h>
 #include <string.h>
 #include <unistd.h>
+#include <sched.h>
 #include "vrt.h"
 #define U vrt_user
 static void *report(void *a){ (void)a; U("U_WorkerNum", 1, (long)myth_get_worker_num()); myth_yield(); U("U_WorkerNum", 1, (long)myth_get_worker_num()); return 0; }
 int main(int argc, char **argv){
   int g;
   if (argc < 3) return 2;
+  cpu_set_t cpus0; sched_getaffinity(0, sizeof cpus0, &cpus0);
   vrt_install_crash_handlers();
   vrt_set_out(argv[1]);
   vrt_free_record(1);
@@ -64,6 +66,9 @@ int main(int argc, char **argv){
       (void)j;
     }
     myth_fini();
+    /* the library leaves the calling thread bound to worker 0's CPU; give it its CPU set back, as a program that
+       goes on using the machine would */
+    sched_setaffinity(0, sizeof cpus0, &cpus0);
   }
   vrt_dump();
   printf("ok\n");
